@@ -525,8 +525,9 @@ def do_run(tier, scratch, servers, t0):
         k = seed % len(dsgroups)
         dsgroups = dsgroups[k:] + dsgroups[:k]
         dsgroups = [g[seed % len(g):] + g[:seed % len(g)] for g in dsgroups]
-    if os.environ.get("VERIF_C08_GROUPS"):
-        dsgroups = dsgroups[:int(os.environ["VERIF_C08_GROUPS"])]
+    if os.environ.get("VERIF_C08_GROUPS"):                  # experiments only: "n" = the first n groups, "a:b" = groups a..b-1
+        lo, _, hi = os.environ["VERIF_C08_GROUPS"].rpartition(":")
+        dsgroups = dsgroups[int(lo or 0):int(hi)]
     dss, groups = [], []
     for g in dsgroups:
         groups.append(list(range(len(dss), len(dss) + len(g))))
